@@ -360,13 +360,15 @@ def batchnorm_cases(tier):
     shapes = [(3, 2), (2, 1), (2, 2, 2)] + ([(4, 2), (2, 1, 2, 2), (2, 2, 3)] if tier == "thorough" else [(2, 1, 1, 2)])
     for shape in shapes:
         C = shape[1]
-        for training, affine, running in itertools.product([True, False], repeat=3):
-            if not training and not running:
-                # eval mode without running statistics falls back to batch statistics (bn_training) -- same kernel mode as training
-                pass
+        # affine: both / neither, and -- through the functional form only -- a scale without a shift and a shift without a scale
+        for training, affine, running in itertools.product([True, False], [True, False, "scale_only", "shift_only"], [True, False]):
+            if affine in ("scale_only", "shift_only") and shape != shapes[0] and tier != "thorough":
+                continue
             leaves = [Leaf("x", shape)]
-            if affine:
-                leaves += [Leaf("gamma", (C,)), Leaf("beta", (C,))]
+            if affine in (True, "scale_only"):
+                leaves += [Leaf("gamma", (C,))]
+            if affine in (True, "shift_only"):
+                leaves += [Leaf("beta", (C,))]
             # running statistics are symbolic constants (not differentiable inputs): arbitrary mean, positive variance
             scal = [Scalar("eps", "pos", native=1e-5), Scalar("mom", "unit", native=0.1)]
             if running:
@@ -378,7 +380,7 @@ def batchnorm_cases(tier):
                 if running:
                     rm = Tensor(_arr([K["rm%d" % c] for c in range(C)]))
                     rv = Tensor(_arr([K["rv%d" % c] for c in range(C)]))
-                return f.batch_norm(T["x"], T["gamma"] if affine else None, T["beta"] if affine else None, rm, rv, training, K["mom"], K["eps"])
+                return f.batch_norm(T["x"], T["gamma"] if affine in (True, "scale_only") else None, T["beta"] if affine in (True, "shift_only") else None, rm, rv, training, K["mom"], K["eps"])
             cases.append(VCase("nn.functional.batch_norm", {"op": "nn.functional.batch_norm", "shape": shape, "training": training, "affine": affine,
                                                             "running_stats": running, "mode": "batch-statistics" if (training or not running) else "running-statistics"},
                                leaves, build, scalars=scal, functions=fns, timeout_ms=30000))
